@@ -28,7 +28,7 @@ ASSUMPTIONS = [
 ]
 
 UNIVERSE = ("class A\nclass B: A\nclass C: A\nclass D: B, C\nclass U\n"
-            "class E1(msg: Str): Exception(msg)\nclass E2(msg: Str): E1(msg)\n")
+            "class E1(msg: Str): Exception(msg)\nclass E2(msg: Str): E1(msg)\nclass IL: List[Int]\nclass St: IL\n")
 EXPR = {"Int": "1", "Float": "1.5", "Str": '"a"', "Bool": "True", "A": "A()", "B": "B()", "C": "C()", "D": "D()",
         "U": "U()", "E1": 'E1("m")', "E2": 'E2("m")', "Exception": 'Exception("m")'}
 TARGETS = ["Int", "Float", "Complex", "Str", "Bool", "A", "B", "C", "D", "U", "E1", "E2", "Exception", "Any"]
